@@ -47,6 +47,10 @@ def main():
     if out == 'timeout':
         time.sleep(300)
         sys.exit(1)
+    if out == 'slow0':
+        # interesting, but only after a while
+        subprocess.call(['sleep', str(spec.get('slow_s', 1.2))])
+        sys.exit(0)
     if out == 'slow':
         # a test that takes a while but finishes on its own, well inside the timeout
         subprocess.call(['sleep', str(spec.get('slow_s', 1.2))])
